@@ -449,11 +449,18 @@ class EngineBase:
         cnt, n = l.cnt, l.n
         x = z3.Int(fresh_name('bx'))
         st.assume(n >= 0)
-        st.assume(z3.ForAll([x], z3.Select(cnt, x) >= 0, patterns=[z3.Select(cnt, x)]))
-        st.assume(z3.ForAll([x], z3.Implies(z3.Select(cnt, x) > 0, n >= z3.Select(cnt, x)), patterns=[z3.Select(cnt, x)]))
+
+        is_lam = z3.is_quantifier(cnt) and cnt.is_lambda()
+
+        def fa(body):
+            if is_lam:
+                return z3.ForAll([x], body)     # cnt is a lambda (dependency-defined list): no select pattern
+            return z3.ForAll([x], body, patterns=[z3.Select(cnt, x)])
+        st.assume(fa(z3.Select(cnt, x) >= 0))
+        st.assume(fa(z3.Implies(z3.Select(cnt, x) > 0, n >= z3.Select(cnt, x))))
         st.assume(z3.Implies(n == 0, cnt == EMPTY_CNT))
         if l.isset:
-            st.assume(z3.ForAll([x], z3.Select(cnt, x) <= 1, patterns=[z3.Select(cnt, x)]))
+            st.assume(fa(z3.Select(cnt, x) <= 1))
 
     def elem_value(self, l, t):
         """wrap an Int element term according to the list's element hint"""
